@@ -1,7 +1,7 @@
 """C16 - memory-optimised runs give the direct results and keep only the targets (plan-twin; no fault dimension)."""
 from .base import PropBase, Violation
 from .. import machine, gen, grammar, probe, refmodel as rm, history
-from ..world import norm, objpath
+from ..world import norm, objpath, left_executing
 from . import c02, c01, c06
 import modelx as mx
 from modelx.core.cells import Cells
@@ -265,7 +265,7 @@ class C16(PropBase):
                 if left:
                     raise Violation("C16/failed-run-left-pasted-values-as-inputs", {"elements": left[:5], "step_size": op["step_size"]})
                 sysm = mx.core.mxsys
-                if sysm.callstack or sysm.executor.is_executing:
+                if left_executing():
                     raise Violation("C16/left-marked-executing/after-failed-run", {})
                 ctx.count("failed_runs_checked", 1, "reach")
         probe.reset()
